@@ -62,6 +62,8 @@ type Task struct {
 	signaled   bool // for cond / generic wake
 	Tag        any
 	Background bool // spawned by instrumented code via `go`
+	unlockHooks []func()
+	FinishSeq  uint64
 }
 
 // FailureKind enumerates simulator-detected failures.
@@ -290,6 +292,7 @@ func (w *World) Abort(detail string) {
 
 func (w *World) finish(t *Task) {
 	t.state = stDone
+	t.FinishSeq = w.Tick()
 	t.points++
 	for i, a := range w.active {
 		if a == t {
@@ -728,3 +731,24 @@ func (t *Task) Done() bool       { return t.state == stDone }
 func (w *World) Aborted() bool   { return w.aborted }
 func (w *World) Log(x uint64)    { w.LogHash = Mix(w.LogHash, x) }
 func (w *World) LogStr(s string) { w.LogHash = Mix(w.LogHash, HashString(s)) }
+
+// OnNextUnlock registers a one-shot callback that runs when the current task next releases a mutex
+// (harness use: the end of the table computation inside which a deletion handler was invoked).
+func OnNextUnlock(fn func()) {
+	if w := W; w != nil && w.cur != nil {
+		w.cur.unlockHooks = append(w.cur.unlockHooks, fn)
+	}
+}
+
+// RunUnlockHooks is called by the mutex shim after an unlock.
+func RunUnlockHooks() {
+	w := W
+	if w == nil || w.cur == nil || len(w.cur.unlockHooks) == 0 {
+		return
+	}
+	hs := w.cur.unlockHooks
+	w.cur.unlockHooks = nil
+	for _, h := range hs {
+		h()
+	}
+}
